@@ -164,7 +164,9 @@ class Checker:
         pts = [xb - dl * dirv, xb, xb + dl * dirv]
         res = [eng(p) for p in pts]
         sts = [STATE_NAMES.get(int(r[2][np.flatnonzero(dirv)[0]]), "?") for r in res]
-        self.P.count("boundary:%s:%s:%s>%s>%s" % (cls, what, sts[0], sts[1], sts[2]))
+        self.P.count("boundary:%s:%s" % (cls, what))
+        if sts[0] != sts[2]:
+            self.P.count("boundary_crossings_with_state_change")
         C = max(cost_mag(self.rows, p) for p in pts)
         for (a, b) in ((0, 2), (0, 1), (1, 2)):
             dy = float(np.linalg.norm((pts[b] - pts[a]) / w))
@@ -422,7 +424,7 @@ def worker(c):
 
 def cases(ctx):
     rng = ctx.rng
-    n = ctx.pick(200, 3000)
+    n = ctx.pick(200, 2400)
     cs = []
     for i in range(n):
         kind = ["pile", "contact", "rich", "pile"][i % 4]
